@@ -61,6 +61,7 @@ type TemplatesShard struct {
 // MarshalJSON encodes the shard's templates under its read lock: Dump runs
 // while the workers keep inserting templates
 func (s *TemplatesShard) MarshalJSON() ([]byte, error) {
+	defer vhook("DumpOut", s, 0)
 	s.RLock()
 	defer s.RUnlock()
 	vhook("DumpLocked", s, 0)
@@ -131,6 +132,7 @@ func (m MemCache) getShard(id uint16, addr net.IP) (*TemplatesShard, uint32) {
 
 func (m MemCache) insert(id uint16, addr net.IP, tr TemplateRecord) {
 	shard, key := m.getShard(id, addr)
+	defer vhook("InsOut", shard, key)
 	shard.Lock()
 	defer shard.Unlock()
 	vhook("InsLocked", shard, key)
@@ -145,6 +147,7 @@ func (m MemCache) insert(id uint16, addr net.IP, tr TemplateRecord) {
 
 func (m MemCache) retrieve(id uint16, addr net.IP) (TemplateRecord, bool) {
 	shard, key := m.getShard(id, addr)
+	defer vhook("RetOut", shard, key)
 	shard.RLock()
 	defer shard.RUnlock()
 	vhook("RetLocked", shard, key)
